@@ -509,6 +509,23 @@ func (s *stub) ServeDNS(ctx context.Context, ch *middleware.Chain) {
 		ch.Cancel()
 		return
 	}
+	if strings.HasSuffix(req.Question[0].Name, ".rho.test.") {
+		// r<j>-<id>-<cycle>.rho.test.: node j > 0 is an alias of node j-1, node 0 of node cycle-1
+		// (a tail leading into a loop that never comes back to the name that was asked); bare CNAMEs only
+		var j, id, cyc int
+		fmt.Sscanf(req.Question[0].Name, "r%d-%d-%d.rho.test.", &j, &id, &cyc)
+		next := j - 1
+		if j == 0 {
+			next = cyc - 1
+		}
+		m := new(dns.Msg)
+		m.SetReply(req)
+		m.Answer = []dns.RR{&dns.CNAME{Hdr: dns.RR_Header{Name: req.Question[0].Name, Rrtype: dns.TypeCNAME, Class: dns.ClassINET, Ttl: 300},
+			Target: fmt.Sprintf("r%d-%d-%d.rho.test.", next, id, cyc)}}
+		_ = ch.Writer.WriteMsg(m)
+		ch.Cancel()
+		return
+	}
 	if strings.HasSuffix(req.Question[0].Name, ".chain.test.") {
 		// c<k>-<id>.chain.test. is an alias of c<k-1>-<id>.chain.test.; c0-<id> has the address.
 		// The answer is always the one record: following it is left to the cache.
@@ -608,7 +625,45 @@ func fallback() *fallbackSrv {
 	return fs
 }
 
+// flatQueryer is an internal-query executor that does NOT chase aliases itself (the Queryer contract
+// does not promise it: the prefetch sub-pipeline, for one, runs without the cache): every sub-query is
+// answered with the one record the name owns — a bare CNAME for the rho / chain names, the address at
+// the end of a chain.
+type flatQueryer struct{ calls atomic.Int32 }
+
+func (q *flatQueryer) Query(ctx context.Context, req *dns.Msg) (*dns.Msg, error) {
+	q.calls.Add(1)
+	if q.calls.Load() > 5000 {
+		return nil, errors.New("c12: runaway alias chase")
+	}
+	name := req.Question[0].Name
+	m := new(dns.Msg)
+	m.SetReply(req)
+	cname := func(target string) {
+		m.Answer = []dns.RR{&dns.CNAME{Hdr: dns.RR_Header{Name: name, Rrtype: dns.TypeCNAME, Class: dns.ClassINET, Ttl: 300}, Target: target}}
+	}
+	var j, id, cyc int
+	switch {
+	case strings.HasSuffix(name, ".rho.test."):
+		fmt.Sscanf(name, "r%d-%d-%d.rho.test.", &j, &id, &cyc)
+		if j == 0 {
+			cname(fmt.Sprintf("r%d-%d-%d.rho.test.", cyc-1, id, cyc))
+		} else {
+			cname(fmt.Sprintf("r%d-%d-%d.rho.test.", j-1, id, cyc))
+		}
+	case strings.HasSuffix(name, ".chain.test."):
+		fmt.Sscanf(name, "c%d-%d.chain.test.", &j, &id)
+		if j > 0 {
+			cname(fmt.Sprintf("c%d-%d.chain.test.", j-1, id))
+		} else {
+			m.Answer = []dns.RR{&dns.A{Hdr: dns.RR_Header{Name: name, Rrtype: dns.TypeA, Class: dns.ClassINET, Ttl: 300}, A: net.IPv4(192, 0, 2, 56)}}
+		}
+	}
+	return m, nil
+}
+
 type miniPipe struct {
+	flat   *flatQueryer // set in "flatq" mode: the cache's internal queries go to it
 	p      *middleware.Pipeline
 	st     *stub
 	policy middleware.RecursionWorkPolicy
@@ -624,6 +679,7 @@ var curPipe *miniPipe
 func pipeNew(mode string, raw [nKinds]uint32, opts ...string) vlib.Res {
 	fo := len(opts) > 0 && opts[0] == "failover"
 	fwd := len(opts) > 0 && opts[0] == "forwarder"
+	flatq := len(opts) > 0 && opts[0] == "flatq"
 	if _, ok := mustPolicy(mode, raw); !ok {
 		curPipe = nil
 		return vlib.Res{Impl: "invalid", Oracle: "ok"}
@@ -635,7 +691,8 @@ func pipeNew(mode string, raw [nKinds]uint32, opts ...string) vlib.Res {
 	st := &stub{}
 	reg := middleware.NewRegistry()
 	reg.Register("edns", func(c *config.Config) middleware.Handler { return edns.New(c) })
-	reg.Register("cache", func(c *config.Config) middleware.Handler { return cache.New(c) })
+	var theCache *cache.Cache
+	reg.Register("cache", func(c *config.Config) middleware.Handler { theCache = cache.New(c); return theCache })
 	if fo {
 		cfg.FallbackServers = []string{fallback().pc.LocalAddr().String()}
 		reg.Register("failover", func(c *config.Config) middleware.Handler { return failover.New(c) })
@@ -651,7 +708,12 @@ func pipeNew(mode string, raw [nKinds]uint32, opts ...string) vlib.Res {
 	p := reg.Build(cfg)
 	middleware.VerifL3AutoWire(p)
 	pol := middleware.MustRecursionWorkPolicyFromConfig(cfg.RecursionFirewall)
-	curPipe = &miniPipe{p: p, st: st, policy: pol, failed: map[string]bool{}, cfg: configuredCaps(raw), fo: fo, fwd: fwd, good: map[string]bool{}}
+	var flat *flatQueryer
+	if flatq && theCache != nil {
+		flat = &flatQueryer{}
+		theCache.SetQueryer(flat)
+	}
+	curPipe = &miniPipe{flat: flat, p: p, st: st, policy: pol, failed: map[string]bool{}, cfg: configuredCaps(raw), fo: fo, fwd: fwd, good: map[string]bool{}}
 	return vlib.Res{Impl: fmt.Sprintf("mode=%s caps=%s", modeName(pol.Mode), u32csv(policyCaps(pol))), Oracle: "ok"}
 }
 
@@ -850,8 +912,18 @@ func pipeChain(id, length int, ednsOn, warm bool, client string) vlib.Res {
 	w := mock.NewWriter("udp", client)
 	ch := mp.p.NewChain()
 	ch.Reset(w, req)
-	ctx, cancel := context.WithTimeout(context.Background(), 5*time.Second)
-	defer cancel()
+	// the client query runs on the server's own request context (lazy deadline carrier: the ledger is
+	// still "pending" when a cache hit starts the first recursive work); the warm-up owns its ledger
+	var ctx context.Context
+	if warm {
+		c, cancel := context.WithTimeout(context.Background(), 5*time.Second)
+		defer cancel()
+		ctx = c
+	} else {
+		lz := contextutil.WithLazyTimeout(context.Background(), 5*time.Second)
+		defer lz.Cancel()
+		ctx = lz
+	}
 	if warm {
 		gen := mp.policy
 		gen.MaxOutboundQueries, gen.MaxInternalQueries = 1000, 1000
@@ -985,6 +1057,51 @@ func pipeLate(id, kind, during, after int) vlib.Res {
 		or = "FAIL sig=pipe/late/finished-tree-retained"
 	}
 	return vlib.Res{Impl: fmt.Sprintf("after=%d/%d/%d retain=%s", okN, canceled, limited, retain), Oracle: or, Tags: "nt,late"}
+}
+
+// pipeRho: a rho-shaped alias loop (tail → cycle, never back to the queried name), or with cycle = 0 a
+// plain chain (via pipeChain). The client query runs on the server's lazy context; what the chase cost is read
+// from the stub's call counter (every sub-query that missed the cache reached it).
+func pipeRho(id, tail, cycle int, ednsOn bool, client string) vlib.Res {
+	mp := curPipe
+	name := fmt.Sprintf("r%d-%d-%d.rho.test.", tail+cycle-1, id, cycle)
+	before := mp.st.calls.Load()
+	start := time.Now()
+	m := mp.run(name, ednsOn, false, client)
+	el := time.Since(start)
+	calls := int(mp.st.calls.Load() - before)
+	or := "ok"
+	rc, an := -1, 0
+	if m != nil {
+		rc, an = m.Rcode, len(m.Answer)
+	}
+	if mp.flat != nil {
+		// one chase level against an executor that does not chase: its own hop budget and loop
+		// detector are all that bound it when the firewall does not enforce
+		hops := int(mp.flat.calls.Swap(0))
+		switch {
+		case m == nil:
+			or = "FAIL sig=pipe/rho/no-reply"
+		case hops > 10:
+			or = fmt.Sprintf("FAIL sig=pipe/rho/chase-level-past-ten-hops hops=%d tail=%d cycle=%d", hops, tail, cycle)
+		case hops > tail+cycle:
+			or = fmt.Sprintf("FAIL sig=pipe/rho/chase-level-revisited-a-target hops=%d names=%d", hops, tail+cycle)
+		}
+		return vlib.Res{Impl: fmt.Sprintf("rcode=%d hops=%d", rc, hops), Oracle: or, Tags: "nt,rho,flatq"}
+	}
+	switch {
+	case m == nil:
+		or = "FAIL sig=pipe/rho/no-reply"
+	case rc != dns.RcodeServerFailure && rc != dns.RcodeSuccess:
+		or = fmt.Sprintf("FAIL sig=pipe/rho/neither-answer-nor-servfail rcode=%d", rc)
+	case calls > cache.VerifC12MaxCnameChaseDepth()*10+tail+cycle:
+		// one chase level follows at most ten hops and never the same target twice, and levels nest at
+		// most maxCnameChaseDepth deep: a loop cannot cost more sub-resolutions than that
+		or = fmt.Sprintf("FAIL sig=pipe/rho/alias-loop-past-hop-and-depth-caps sub-resolutions=%d names=%d bound=%d", calls, tail+cycle, cache.VerifC12MaxCnameChaseDepth()*10+tail+cycle)
+	case el > 3*time.Second:
+		or = fmt.Sprintf("FAIL sig=pipe/rho/alias-loop-not-ended-in-time elapsed=%s", el.Round(time.Millisecond))
+	}
+	return vlib.Res{Impl: fmt.Sprintf("rcode=%d an=%d stub=%d ms=%d", rc, an, calls, el.Milliseconds()), Oracle: or, Tags: "nt,rho"}
 }
 
 // subNest: the stub re-enters the internal sub-pipeline from inside its own
